@@ -1,14 +1,34 @@
 /-
-C15, translator tie: the Lean definition GENERATED from the current Rust text of `EncodeWindowBits`
-(tools/rs2lean.py -> BV/Gen/FnC15.lean) equals the model's `encodeWindowBits` for every window
-exponent a 6-bit field can carry (the encoder passes 10..30) and both header forms; the two `&mut`
-results do not depend on the values they had before the call.
+C15, translator tie: the Lean definitions GENERATED from the current Rust text (tools/rs2lean.py ->
+BV/Gen/FnC15.lean) of `EncodeWindowBits`, `SanitizeParams`, `ComputeLgBlock`, `ComputeRbBits`,
+`update_size_hint` (+ `unprocessed_input_size`), `encode_base_128` and `BrotliWriteMetadataMetaBlock`
+equal the hand-written header model `BV.Header` (over which C15's theorems are stated):
+
+* `EncodeWindowBits`: for every window exponent a 6-bit field can carry (the encoder passes 10..30) and
+  both header forms; the two `&mut` results do not depend on the values they had before the call;
+* `SanitizeParams`: the WHOLE generated parameter structure after the call is the structure before it
+  with exactly `quality`, `lgwin`, `appendable` replaced by the model's values (every field value, no
+  range hypothesis) — in particular no other field is touched;
+* `ComputeLgBlock`: every parameter structure; `ComputeRbBits`: whenever `1 + max` fits an `i32`;
+* `update_size_hint`: the whole encoder state afterwards is the state before with `params.size_hint`
+  replaced by the model's `updateSizeHint` (every state, every `available_in`);
+* `encode_base_128`: for every `u64` the returned pair is (the model's byte count, the model's bytes
+  followed by zeros up to 10); the debug-build no-panic condition `encode_base_128_ok` holds;
+* `BrotliWriteMetadataMetaBlock`: the generated list of `BrotliWriteBits` / `JumpToByteBoundary` calls,
+  run on ANY writer, is the model's `writeMetadataMetaBlock` (every parameter structure with a `u64`
+  size hint).
+
+`BrotliInitDistanceParams` / `ChooseDistanceParams` have no hand-written model: `BV.Props.C15GenD`
+states their properties directly over the generated definitions.
 -/
 import BV.Gen.FnC15
 import BV.Model.Header
+import BV.Lemmas.RsPrelude
+import BV.Lemmas.RsWriter
+import BV.Lemmas.HeaderB128
 
 namespace BV.Props.C15Gen
-open BV.Gen.FnC15
+open BV.Gen.FnC15 BV.Header BV.Rs BV.Bits BV.Bits.Out
 
 theorem encode_window_bits_generated_fin :
     ∀ (k : Fin 64) (large : Bool),
@@ -29,5 +49,262 @@ theorem encode_window_bits_generated (lgwin : Nat) (h : lgwin < 64) (large : Boo
 
 example : EncodeWindowBits 22 false 7 7 = (11, 4) := by decide
 example : EncodeWindowBits 30 true 0 0 = (0x1e11, 14) := by decide
+
+
+/-! ## the parameter functions -/
+
+/-- the fields of the generated `BrotliEncoderParams` the header model looks at -/
+def toParams (p : BrotliEncoderParams) : Params :=
+  { quality := p.quality, lgwin := p.lgwin, lgblock := p.lgblock, largeWindow := p.large_window,
+    catable := p.catable, appendable := p.appendable, useDictionary := p.use_dictionary,
+    magicNumber := p.magic_number, sizeHint := p.size_hint }
+
+theorem check_large_window_ok_generated : check_large_window_ok = true := rfl
+
+theorem sanitize_params_generated (p : BrotliEncoderParams) :
+    SanitizeParams p = { p with quality := (sanitizeParams true (toParams p)).quality,
+                                lgwin := (sanitizeParams true (toParams p)).lgwin,
+                                appendable := (sanitizeParams true (toParams p)).appendable } := by
+  have hl : litsSan = [11, 0, 10, 10, 24, 30, 30, 24] := rfl
+  unfold SanitizeParams sanitizeParams toParams check_large_window_ok
+  simp only [hl, lit, List.getD_cons_zero, List.getD_cons_succ]
+  cases hc : p.catable <;> cases hw : p.large_window <;> simp <;> split <;> (try split) <;> (try split) <;> simp_all
+
+theorem compute_lg_block_generated (p : BrotliEncoderParams) :
+    ComputeLgBlock p = computeLgBlock (toParams p) := by
+  have hl : litsLgb = [0, 1, 4, 14, 0, 16, 9, 18, 24, 16] := rfl
+  unfold ComputeLgBlock computeLgBlock toParams
+  simp only [hl, lit, List.getD_cons_zero, List.getD_cons_succ]
+  simp only [Bool.or_eq_true, beq_iff_eq, Bool.and_eq_true, decide_eq_true_eq]
+  rfl
+
+theorem compute_rb_bits_generated (p : BrotliEncoderParams)
+    (h1 : -2147483648 ≤ p.lgwin ∧ p.lgwin < 2147483647) (h2 : -2147483648 ≤ p.lgblock ∧ p.lgblock < 2147483647) :
+    ComputeRbBits p = computeRbBits (toParams p) := by
+  unfold ComputeRbBits computeRbBits toParams
+  have : lit BV.Gen.lits_ComputeRbBits 0 = 1 := rfl
+  rw [this]
+  apply BV.Rs.wrapS32_of_range <;> omega
+
+theorem update_size_hint_generated (s : BrotliEncoderStateStruct) (avail : Nat) :
+    update_size_hint s avail = { s with params := { s.params with
+        size_hint := updateSizeHint s.params.size_hint (unprocessed_input_size s) avail } } := by
+  have hl : litsUsh = [0, 1, 30] := rfl
+  unfold update_size_hint updateSizeHint
+  simp only [hl, lit, List.getD_cons_zero, List.getD_cons_succ]
+  by_cases h : s.params.size_hint = 0
+  · simp only [h, beq_self_eq_true, if_true]
+    simp only [Bool.or_eq_true, decide_eq_true_eq, or_assoc]
+    have e : (1 <<< (30 % 32)) % 4294967296 = 1 * 2 ^ 30 := by decide
+    have e2 : (2:Nat)^64 = 18446744073709551616 := by decide
+    have e3 : (2:Nat)^32 = 4294967296 := by decide
+    rw [e, e2, e3]
+  · have : (s.params.size_hint == 0) = false := by simp [h]
+    simp [this, h]
+
+/-! ## `encode_base_128` -/
+
+def b128Body : Nat → Nat × List Nat → Ctl (Nat × List Nat) (Nat × List Nat) :=
+  fun index (value, ret) =>
+    let ret : List Nat := (List.set ret index ((value &&& 127) % 256))
+    let value : Nat := (value >>> (7 % 64))
+    if (value != 0) then
+      let ret : List Nat := (List.set ret index ((List.getD ret index 0) ||| 128))
+      BV.Rs.Ctl.next (value, ret)
+    else
+      BV.Rs.Ctl.ret ((((index + 1) % 18446744073709551616), ret))
+
+theorem encode_base_128_unfold (value : Nat) :
+    encode_base_128 value =
+      match forRangeRAux b128Body 10 0 (value, List.replicate 10 0) with
+      | .ret r => r
+      | .done (_, ret) => (ret.length, ret) := rfl
+
+/-- loop invariant: with `acc` the bytes written so far (`acc.length = index`) and zeros behind them -/
+theorem b128_loop (n : Nat) : ∀ (value : Nat) (acc : List Nat), acc.length + n = 10 →
+    (match forRangeRAux b128Body n acc.length (value, acc ++ List.replicate n 0) with
+      | .ret r => r
+      | .done (_, ret) => (ret.length, ret)) =
+    ((encodeBase128Loop n value acc).length,
+      encodeBase128Loop n value acc ++ List.replicate (10 - (encodeBase128Loop n value acc).length) 0) := by
+  induction n with
+  | zero => intro value acc h; simp [forRangeRAux, encodeBase128Loop]; omega
+  | succ n ih =>
+    intro value acc h
+    have hl : litsB128 = [0, 0, 127, 7, 0, 128, 1] := rfl
+    unfold forRangeRAux encodeBase128Loop
+    simp only [hl, lit, List.getD_cons_zero, List.getD_cons_succ, b128Body]
+    have hm : (value &&& 127) % 256 = value &&& 127 := by
+      have : value &&& 127 ≤ 127 := Nat.and_le_right
+      omega
+    have hset : ∀ x, (acc ++ List.replicate (n + 1) 0).set acc.length x = (acc ++ [x]) ++ List.replicate n 0 := by
+      intro x
+      simp [List.replicate_succ]
+    by_cases hv : value >>> 7 = 0
+    · simp [hv, hm, hset]; omega
+    · have hv' : (value >>> (7 % 64) != 0) = true := by simpa using hv
+      simp only [hv', if_true, hm, hset, ne_eq, hv, not_false_eq_true]
+      have hg : (acc ++ [value &&& 127] ++ List.replicate n 0).getD acc.length 0 = value &&& 127 := by
+        simp [List.getD_eq_getElem?_getD]
+      rw [hg]
+      have hset2 : (acc ++ [value &&& 127] ++ List.replicate n 0).set acc.length (value &&& 127 ||| 128)
+          = (acc ++ [value &&& 127 ||| 128]) ++ List.replicate n 0 := by
+        simp
+      rw [hset2]
+      have := ih (value >>> 7) (acc ++ [value &&& 127 ||| 128]) (by simp; omega)
+      simp only [List.length_append, List.length_singleton] at this
+      exact this
+
+/-- `encode_base_128(value)` = (number of significant bytes, those bytes followed by zeros up to 10) -/
+theorem encode_base_128_generated (value : Nat) (h : value < 2 ^ 64) :
+    encode_base_128 value =
+      ((encodeBase128 value).length, encodeBase128 value ++ List.replicate (10 - (encodeBase128 value).length) 0) := by
+  rw [encode_base_128_unfold]
+  have := b128_loop 10 value [] rfl
+  simp only [List.length_nil, List.nil_append] at this
+  rw [this]
+  unfold encodeBase128
+  have : BV.Gen.MAX_SIZE_ENCODING = 10 := rfl
+  rw [this, Nat.mod_eq_of_lt h]
+
+/-! ## `BrotliWriteMetadataMetaBlock` -/
+
+theorem forRangeAux_bytes (l : List Nat) : ∀ (n i : Nat) (w : List WOp), i + n = l.length →
+    forRangeAux (fun i w => w ++ [WOp.bits 8 (l.getD i 0)]) n i w = w ++ (l.drop i).map (WOp.bits 8) := by
+  intro n
+  induction n with
+  | zero => intro i w h; simp [forRangeAux]; omega
+  | succ n ih =>
+    intro i w h
+    unfold forRangeAux
+    rw [ih (i + 1) _ (by omega)]
+    have hi : i < l.length := by omega
+    rw [List.drop_eq_getElem_cons hi]
+    simp only [List.map_cons, List.getD_eq_getElem?_getD, List.getElem?_eq_getElem hi, Option.getD_some,
+      List.append_assoc, List.singleton_append]
+
+theorem forRange_bytes (l : List Nat) (w : List WOp) :
+    forRange 0 l.length w (fun i w => w ++ [WOp.bits 8 (l.getD i 0)]) = w ++ l.map (WOp.bits 8) := by
+  unfold forRange
+  rw [forRangeAux_bytes l _ 0 w (by omega)]
+  simp
+
+theorem runOps_append (a b : List WOp) (w : Writer) : runOps (a ++ b) w = (runOps a w) >>= (runOps b) := by
+  induction a generalizing w with
+  | nil => simp
+  | cons x xs ih =>
+    cases x with
+    | bits n v =>
+      simp only [List.cons_append, runOps_bits]
+      cases hw : writeBits n v w <;> simp [ih]
+    | align => simp [ih]
+
+theorem runOps_bytes (l : List Nat) (w : Writer) : runOps (l.map (WOp.bits 8)) w = writeBytes 8 l w := by
+  induction l generalizing w with
+  | nil => rfl
+  | cons b bs ih =>
+    simp only [List.map_cons, runOps_bits, writeBytes]
+    cases writeBits 8 b w <;> simp [ih]
+
+theorem slice_prefix (a b : List Nat) : slice (a ++ b) 0 a.length = a := by
+  simp [slice]
+
+theorem magic_generated (p : BrotliEncoderParams) :
+    (if (p.catable && (!p.use_dictionary)) then ( [225, 151, 129]) else ( (if p.appendable then ( [225, 151, 130]) else ( [225, 151, 128]))))
+      = magicNumber (toParams p) := by
+  unfold magicNumber toParams
+  rfl
+
+theorem write_metadata_ops (p : BrotliEncoderParams) (h : p.size_hint < 2 ^ 64) :
+    BrotliWriteMetadataMetaBlock p =
+      [WOp.bits 1 0, WOp.bits 2 3, WOp.bits 1 0, WOp.bits 2 1,
+        WOp.bits 8 (3 + (encodeBase128 p.size_hint).length), WOp.align]
+      ++ (magicNumber (toParams p)).map (WOp.bits 8) ++ [WOp.bits 8 1]
+      ++ (encodeBase128 p.size_hint).map (WOp.bits 8) := by
+  unfold BrotliWriteMetadataMetaBlock
+  simp only [encode_base_128_generated p.size_hint h, slice_prefix, magic_generated]
+  rw [forRange_bytes, forRange_bytes]
+  have hlen : (encodeBase128 p.size_hint).length ≤ 10 := (encodeBase128_spec p.size_hint h []).2.2.1
+  have : (3 + (encodeBase128 p.size_hint).length) % 18446744073709551616 = 3 + (encodeBase128 p.size_hint).length := by omega
+  rw [this]
+  simp
+
+theorem out_bind_congr {α β : Type} (x : Out α) (f g : α → Out β) (h : ∀ a, f a = g a) : (x >>= f) = (x >>= g) := by
+  cases x <;> simp [h]
+
+/-- the generated operation list of `BrotliWriteMetadataMetaBlock`, run on ANY writer, is what the header
+model writes (magic bytes by concatenation mode, crate version, base-128 size hint) -/
+theorem write_metadata_meta_block_generated (p : BrotliEncoderParams) (h : p.size_hint < 2 ^ 64) (w : Writer) :
+    runOps (BrotliWriteMetadataMetaBlock p) w = writeMetadataMetaBlock (toParams p) w := by
+  rw [write_metadata_ops p h]
+  have hl : litsMeta = [1, 0, 2, 3, 1, 0, 2, 1, 8, 3, 3, 225, 151, 129, 225, 151, 130, 225, 151, 128, 8, 8, 8] := rfl
+  have hv : BV.Gen.BROTLI_CRATE_VERSION = 1 := rfl
+  have hsz : (toParams p).sizeHint = p.size_hint := rfl
+  unfold writeMetadataMetaBlock
+  simp only [hl, hv, hsz, lit, List.getD_cons_zero, List.getD_cons_succ]
+  simp only [List.cons_append, List.nil_append, runOps_bits, List.append_assoc]
+  refine out_bind_congr _ _ _ (fun w1 => ?_)
+  rw [runOps_bits]; refine out_bind_congr _ _ _ (fun w2 => ?_)
+  rw [runOps_bits]; refine out_bind_congr _ _ _ (fun w3 => ?_)
+  rw [runOps_bits]; refine out_bind_congr _ _ _ (fun w4 => ?_)
+  rw [runOps_bits]; refine out_bind_congr _ _ _ (fun w5 => ?_)
+  rw [runOps_align, runOps_append, runOps_bytes]
+  refine out_bind_congr _ _ _ (fun w6 => ?_)
+  rw [runOps_bits]; refine out_bind_congr _ _ _ (fun w7 => ?_)
+  rw [runOps_bytes]
+
+/-! `encode_base_128` cannot panic in a debug build (index in bounds, `index + 1` does not overflow): every value -/
+
+def b128OkBody : Nat → Nat × List Nat × Bool → Ctl (Nat × List Nat × Bool) Bool :=
+  fun index (value, ret, ok_) =>
+    let ok_ : Bool := (ok_ && decide (index < List.length ret))
+    let ret : List Nat := (List.set ret index ((value &&& 127) % 256))
+    let ok_ : Bool := (ok_ && decide (7 < 64))
+    let value : Nat := (value >>> (7 % 64))
+    if (value != 0) then
+      let ok_ : Bool := (ok_ && decide (index < List.length ret) && decide (index < List.length ret))
+      let ret : List Nat := (List.set ret index ((List.getD ret index 0) ||| 128))
+      BV.Rs.Ctl.next (value, ret, ok_)
+    else
+      let ok_ : Bool := (ok_ && decide (index + 1 < 18446744073709551616))
+      BV.Rs.Ctl.ret (ok_)
+
+theorem encode_base_128_ok_unfold (value : Nat) :
+    encode_base_128_ok value =
+      match forRangeRAux b128OkBody 10 0 (value, List.replicate 10 0, true) with
+      | .ret r => r
+      | .done (_, _, ok_) => ok_ := rfl
+
+theorem b128_ok_loop (n : Nat) : ∀ (i value : Nat) (ret : List Nat), ret.length = 10 → i + n = 10 →
+    (match forRangeRAux b128OkBody n i (value, ret, true) with
+      | .ret r => r
+      | .done (_, _, ok_) => ok_) = true := by
+  induction n with
+  | zero => intro i value ret h1 h2; rfl
+  | succ n ih =>
+    intro i value ret h1 h2
+    unfold forRangeRAux
+    simp only [b128OkBody, List.length_set, h1]
+    have hi : decide (i < 10) = true := by simp; omega
+    have hi2 : decide (i + 1 < 18446744073709551616) = true := by simp; omega
+    have h7 : decide (7 < 64) = true := by decide
+    simp only [hi, hi2, h7, Bool.and_self]
+    by_cases hv : (value >>> (7 % 64) != 0) = true
+    · simp only [hv, if_true]
+      exact ih (i + 1) _ _ (by simp [h1]) (by omega)
+    · simp only [hv]
+      rfl
+
+theorem encode_base_128_ok_generated (value : Nat) : encode_base_128_ok value = true := by
+  rw [encode_base_128_ok_unfold]
+  exact b128_ok_loop 10 0 value _ (by simp) rfl
+
+example : encode_base_128 300 = (2, [172, 2, 0, 0, 0, 0, 0, 0, 0, 0]) := by decide
+example : (SanitizeParams { (default : BrotliEncoderParams) with quality := 99, lgwin := 40, large_window := true, catable := true })
+    = { (default : BrotliEncoderParams) with quality := 11, lgwin := 30, large_window := true, catable := true, appendable := true } := by
+  decide
+example : ComputeLgBlock { (default : BrotliEncoderParams) with quality := 9, lgwin := 22 } = 18 := by decide
+example : (update_size_hint { (default : BrotliEncoderStateStruct) with input_pos_ := 100, last_processed_pos_ := 40 } 5).params.size_hint = 65 := by
+  decide
 
 end BV.Props.C15Gen
